@@ -24,6 +24,9 @@ def check_world(world, top):
             if os.path.splitext(cfg0["file"])[1] in (".F90", ".f90"):
                 skipped += 1
                 continue
+            if not os.path.isdir(cfg0["directory"]):
+                skipped += 1
+                continue
             if cfg0["compiler"] not in ("gcc", "g++", "clang", "clang++"):
                 # multi-pass / implicit-define compilers are CBI conventions, not gcc behaviour
                 skipped += 1
